@@ -60,6 +60,14 @@ impl DataItem for DateItem {
         let mut date = self.0;
         let mut duration = other.as_any().downcast_ref::<DurationItem>()?.get_duration();
 
+        /* A negative duration moves the date in the opposite direction */
+        let operation_type = match (operation_type, duration < Duration::zero()) {
+            (OperationType::Add, true) => OperationType::Sub,
+            (OperationType::Sub, true) => OperationType::Add,
+            (operation_type, _) => operation_type
+        };
+        duration = duration.abs();
+
         match operation_type {
             OperationType::Add => {
                 let mut year = date.year();
